@@ -6,6 +6,7 @@ import (
 	"go/constant"
 	"go/token"
 	"go/types"
+	"regexp"
 	"strings"
 	"time"
 
@@ -257,6 +258,35 @@ func c18Lookup(c *Ctx, r *Report) {
 			}
 		}
 	}
+	// the same, recognised structurally: whatever key the table is consulted with must be
+	// the part after the last "." of the lower-cased domain (LastIndex / LastIndexByte,
+	// lower-casing before or after cutting)
+	qd := regexp.QuoteMeta(dom)
+	ql := regexp.QuoteMeta(lower)
+	dot := `(?:"\."|46)`
+	labelRe := regexp.MustCompile(`^(?:slice\(` + ql + `, \(strings\.LastIndex(?:Byte)?\(` + ql + `, ` + dot + `\) \+ 1\), _, _\)|strings\.ToLower\(slice\(` + qd + `, \(strings\.LastIndex(?:Byte)?\(` + qd + `, ` + dot + `\) \+ 1\), _, _\)\))$`)
+	var findKey func(t *T) string
+	findKey = func(t *T) string {
+		if t == nil {
+			return ""
+		}
+		if t.Op == "lookup" && len(t.Args) == 2 && t.Args[0].String() == "util.tldMap" {
+			return t.Args[1].String()
+		}
+		for _, a := range t.Args {
+			if k := findKey(a); k != "" {
+				return k
+			}
+		}
+		return ""
+	}
+	for _, o := range outs {
+		for _, cd := range o.Conds {
+			if k := findKey(cd.T); k != "" && labelRe.MatchString(k) {
+				wantKey = k
+			}
+		}
+	}
 	lookup := "lookup:commaok(util.tldMap, " + wantKey + ")"
 	bad := abort
 	for _, present := range []bool{true, false} {
@@ -345,7 +375,7 @@ func c18Lint(c *Ctx, r *Report) {
 	}
 	noInline := func(*ssa.Function) bool { return false }
 	fn := reg.Execute
-	outs, abort := Enumerate(fn, SymOpts{Inline: noInline, LoopBound: 2})
+	outs, abort := Enumerate(fn, SymOpts{Inline: noInline, LoopBound: 3, Lists: true})
 	if abort != "" {
 		r.Unk("tld-lint", "Execute", fn.Pos(), abort)
 		return
@@ -607,6 +637,41 @@ func c18Generator(c *Ctx, r *Report) {
 			}
 		})
 		okDom = execs > 0 && execs == guarded
+	}
+	if !okDom {
+		// the same on the decision table (helpers newer than the rules inlined): on every
+		// path that renders the template, validateGTLDs was called before and its error
+		// was seen to be nil
+		outs, abort := Enumerate(rg, SymOpts{Inline: func(*ssa.Function) bool { return false }, LoopBound: 1, MaxPaths: 200000})
+		if abort == "" {
+			renders, good := 0, 0
+			for _, o := range outs {
+				execAt, valAt := -1, -1
+				var valRes *T
+				for i, ev := range o.Trace {
+					if ev.Kind == "call" && strings.HasSuffix(ev.Name, "template.Template).Execute") && execAt < 0 {
+						execAt = i
+					}
+					if ev.Kind == "call" && ev.Name == "cmd/zlint-gtld-update.validateGTLDs" && valAt < 0 {
+						valAt, valRes = i, ev.Result
+					}
+				}
+				if execAt < 0 {
+					continue
+				}
+				renders++
+				if valAt < 0 || valAt > execAt || valRes == nil {
+					continue
+				}
+				for _, cd := range o.Conds {
+					if cd.Val && cd.T.Op == "bin" && cd.T.Name == "==" && len(cd.T.Args) == 2 && cd.T.Args[0] == valRes && cd.T.Args[1].IsNil() {
+						good++
+						break
+					}
+				}
+			}
+			okDom = renders > 0 && renders == good
+		}
 	}
 	r.Check(okDom, "generator", "renderGTLDMap", rg.Pos(), "template rendered only after validation succeeded", "the gTLD map template can be rendered although validateGTLDs failed (or is no longer called)")
 }
